@@ -335,21 +335,50 @@ def run_concurrent(params: dict, chooser) -> dict:
         slots = []
         for i, op in enumerate(ops):
             slots.append(world.op(f't{i}', op, (lambda op=op: rig.op_coro(op)), record=True))
+        if params.get('cancel_first'):
+            # the caller of the first (slow) operation gives up: its task is cancelled at a point the explorer picks
+            async def cancel_first():
+                t = slots[0].get('task')
+                if t is not None and not t.done():
+                    t.cancel()
+            world.op('x', 'cancel-caller', cancel_first, record=False, guard=lambda: 'task' in slots[0])
         world.state_fn = lambda: (rig.projection(), tuple(s['state'] for s in slots),
                                   tuple(sorted(ev.key for ev in world.pending)))
         world.run()
         events = rig.listener.events[before:]
         viols = check_edges(events, f"{direction} {state_name} || {ops}")
         results = []
+        cancelled_ops = [i for i, s in enumerate(slots) if s['state'] == 'cancelled']
         for s in slots:
-            if s['state'] != 'done':
+            if s['state'] == 'cancelled':
+                results.append('cancelled')
+            elif s['state'] != 'done':
                 viols.append(Violation('op-stuck', f"{s['name']} never returned ({s['state']})",
                                        signature=f"C03:op-stuck:{s['name']}"))
                 results.append('stuck')
             else:
                 results.append(s.get('result') if 'exc' not in s else 'exc:' + s['exc'])
         outcome = (tuple(map(repr, results)),) + _final(rig)
-        if not any(v.clause == 'op-stuck' for v in viols):
+        if cancelled_ops:
+            # a cancelled call may or may not have taken effect: compare with the sequential orders of the
+            # operations with and without it (its own result is not compared)
+            allowed = set()
+            keep = [i for i in range(len(ops)) if i not in cancelled_ops]
+            for subset in (list(range(len(ops))), keep):
+                sub_ops = tuple(ops[i] for i in subset)
+                for o in _seq_cache(direction, state_name, arm, sub_ops, slow):
+                    res_map = dict(zip(subset, o[0]))
+                    # a call cancelled half-way may already have stopped the tasks / removed the file:
+                    # only results, state and reasons are compared
+                    allowed.add((tuple(res_map.get(i, "'cancelled'") if i not in cancelled_ops else "'cancelled'"
+                                       for i in range(len(ops))),) + o[1:4])
+            if outcome[:4] not in allowed:
+                viols.append(Violation(
+                    'not-serializable',
+                    f"{direction} {state_name}{'+armed' if arm else ''}: {ops} with the caller of #0 cancelled gave "
+                    f"{outcome}, events {events}; allowed {sorted(allowed)}",
+                    signature=f"C03:not-serializable-cancel:{state_name}:{'+'.join(sorted(ops))}"))
+        elif not any(v.clause == 'op-stuck' for v in viols):
             allowed = _seq_cache(direction, state_name, arm, tuple(ops), slow)
             if outcome not in allowed:
                 viols.append(Violation(
@@ -388,6 +417,11 @@ def scenarios(tier: str):
             for arm in (False, True):
                 for ops in itertools.combinations_with_replacement(CONC_OPS, n):
                     out.append({'kind': 'conc', 'direction': direction, 'state': state, 'arm': arm, 'ops': list(ops)})
+                if arm and state in ('QUEUED', 'INITIALIZING', 'TRANSFERRING', 'INCOMPLETE', 'PAUSED'):
+                    for first in ('abort_req', 'pause'):
+                        for second in ('fail_x', 'queue', 'complete', 'abort_req', 'pause'):
+                            out.append({'kind': 'conc', 'direction': direction, 'state': state, 'arm': True,
+                                        'ops': [first, second], 'cancel_first': True})
                 if tier == 'thorough':
                     for ops in itertools.combinations_with_replacement(
                             ['queue', 'pause', 'abort_req', 'fail_x', 'complete', 'initialize'], 3):
